@@ -21,15 +21,20 @@ import (
 
 // generation i of the HTTPServer spec: every observable field is distinctive for i
 type vfGen struct {
-	idx      int
-	backend  string // g<i>
-	rewrite  string // /g<i>
-	xff      bool   // parity
-	maxBody  int64  // path-level clientMaxBodySize: small (=> 413 for the 64-byte body) or 0
-	srvBody  int64  // server-level clientMaxBodySize (0 or large)
-	twoRules bool   // an extra decoy rule in front (changes the rule slice length)
-	cache    int
+	idx       int
+	backend   string // g<i>
+	rewrite   string // /g<i>
+	xff       bool   // parity
+	maxBody   int64  // path-level clientMaxBodySize: small (=> 413 for the 64-byte body) or 0
+	srvBody   int64  // server-level clientMaxBodySize (0 or large)
+	twoRules  bool   // an extra decoy rule in front (changes the rule slice length)
+	cache     int
+	srvBlock  string // server-level ipFilter blockIPs entry ("" = no filter)
+	pathBlock string // path-level ipFilter blockIPs entry
 }
+
+// the two probing clients
+var vfC11Clients = []string{"10.0.0.9", "10.0.0.10"}
 
 func (g vfGen) yaml() string {
 	var b strings.Builder
@@ -37,6 +42,9 @@ func (g vfGen) yaml() string {
 	fmt.Fprintf(&b, "cacheSize: %d\nxForwardedFor: %v\n", g.cache, g.xff)
 	if g.srvBody != 0 {
 		fmt.Fprintf(&b, "clientMaxBodySize: %d\n", g.srvBody)
+	}
+	if g.srvBlock != "" {
+		fmt.Fprintf(&b, "ipFilter:\n  blockByDefault: false\n  blockIPs: [%s]\n", g.srvBlock)
 	}
 	b.WriteString("rules:\n")
 	if g.twoRules {
@@ -46,11 +54,17 @@ func (g vfGen) yaml() string {
 	if g.maxBody != 0 {
 		fmt.Fprintf(&b, "    clientMaxBodySize: %d\n", g.maxBody)
 	}
+	if g.pathBlock != "" {
+		fmt.Fprintf(&b, "    ipFilter:\n      blockByDefault: false\n      blockIPs: [%s]\n", g.pathBlock)
+	}
 	return b.String()
 }
 
 // expected observable tuple of a generation for the fixed probe request (POST /api/x, 64-byte body)
-func (g vfGen) tuple() string {
+func (g vfGen) tuple(client string) string {
+	if g.srvBlock == client || g.pathBlock == client {
+		return "403|||"
+	}
 	lim := g.maxBody
 	if lim == 0 {
 		lim = g.srvBody
@@ -60,7 +74,6 @@ func (g vfGen) tuple() string {
 	}
 	return fmt.Sprintf("200|%s|%s/x|%v", g.backend, g.rewrite, g.xff)
 }
-
 
 // TestVerifC11Mux: readers hammer mux.ServeHTTP while a writer reloads generations; each response
 // must carry the complete tuple of ONE generation that was current during the request.
@@ -75,13 +88,28 @@ func TestVerifC11Mux(t *testing.T) {
 		for i := range gens {
 			g := vfGen{idx: i, backend: fmt.Sprintf("g%d", i), rewrite: fmt.Sprintf("/g%d", i), xff: i%2 == 1,
 				twoRules: rapid.Bool().Draw(rt, "tworules"), cache: rapid.SampledFrom([]int{0, 0, 4}).Draw(rt, "cache")}
+			if i > 0 && rapid.IntRange(0, 2).Draw(rt, "keeprules") == 0 {
+				// only server-level options change: the rules (and cache size) stay exactly as before
+				prev := gens[i-1]
+				g.backend, g.rewrite, g.twoRules, g.cache, g.maxBody, g.pathBlock = prev.backend, prev.rewrite, prev.twoRules, prev.cache, prev.maxBody, prev.pathBlock
+				g.xff = rapid.Bool().Draw(rt, "xff")
+				vf.Class("generation-with-unchanged-rules")
+			} else {
+				g.pathBlock = rapid.SampledFrom([]string{"", "", "10.0.0.9", "10.0.0.10"}).Draw(rt, "pathblock")
+			}
+			g.srvBlock = rapid.SampledFrom([]string{"", "", "10.0.0.9", "10.0.0.10"}).Draw(rt, "srvblock")
 			switch rapid.IntRange(0, 5).Draw(rt, "body") {
 			case 0:
-				g.maxBody = 10 // => 413
+				if g.maxBody == 0 {
+					g.maxBody = 10 // => 413
+				}
 			case 1:
 				g.srvBody = 10 // => 413 via the server-level option
 			case 2:
-				g.srvBody, g.maxBody = 10, 1000 // path level wins => 200
+				g.srvBody = 10
+				if g.maxBody == 0 {
+					g.maxBody = 1000 // path level wins => 200
+				}
 			}
 			gens[i] = g
 			live[g.backend] = true
@@ -103,6 +131,7 @@ func TestVerifC11Mux(t *testing.T) {
 		type obs struct {
 			lo, hi int64
 			tuple  string
+			client string
 		}
 		results := make([][]obs, nreaders)
 		var panics []string
@@ -121,9 +150,10 @@ func TestVerifC11Mux(t *testing.T) {
 				}()
 				for n := 0; atomic.LoadInt32(&stop) == 0 || n < 3; n++ {
 					lo := atomic.LoadInt64(&applied)
+					client := vfC11Clients[(n+r)%2]
 					req := &http.Request{Method: "POST", URL: &url.URL{Path: "/api/x"}, Host: "a.com", Header: http.Header{},
 						Proto: "HTTP/1.1", ProtoMajor: 1, ProtoMinor: 1, Body: io.NopCloser(strings.NewReader(body)),
-						ContentLength: 64, RemoteAddr: "10.0.0.9:1", RequestURI: "/api/x"}
+						ContentLength: 64, RemoteAddr: client + ":1", RequestURI: "/api/x"}
 					w := httptest.NewRecorder()
 					m.ServeHTTP(w, req)
 					hi := atomic.LoadInt64(&started)
@@ -132,7 +162,7 @@ func TestVerifC11Mux(t *testing.T) {
 					if w.Code != 200 {
 						tuple = fmt.Sprintf("%d|||", w.Code)
 					}
-					results[r] = append(results[r], obs{lo, hi, tuple})
+					results[r] = append(results[r], obs{lo, hi, tuple, client})
 					if n > 20000 {
 						break
 					}
@@ -140,16 +170,40 @@ func TestVerifC11Mux(t *testing.T) {
 			}(r)
 		}
 		rounds := rapid.IntRange(1, 6).Draw(rt, "rounds")
+		seqProbe := rapid.Bool().Draw(rt, "seqprobe")
+		seqFail := ""
 		for k := 1; k < ngen*rounds; k++ {
 			atomic.StoreInt64(&started, int64(k))
 			m.reload(specs[k%ngen], mapper)
 			atomic.StoreInt64(&applied, int64(k))
+			if seqProbe {
+				// the writer itself probes: no reload is in flight, so the answer must be generation k's
+				for _, client := range vfC11Clients {
+					req := &http.Request{Method: "POST", URL: &url.URL{Path: "/api/x"}, Host: "a.com", Header: http.Header{},
+						Proto: "HTTP/1.1", ProtoMajor: 1, ProtoMinor: 1, Body: io.NopCloser(strings.NewReader(body)),
+						ContentLength: 64, RemoteAddr: client + ":1", RequestURI: "/api/x"}
+					w := httptest.NewRecorder()
+					m.ServeHTTP(w, req)
+					p, _ := url.QueryUnescape(w.Header().Get("X-Vf-Path"))
+					tuple := fmt.Sprintf("%d|%s|%s|%v", w.Code, w.Header().Get("X-Vf-Backend"), p, w.Header().Get("X-Vf-Xff") != "")
+					if w.Code != 200 {
+						tuple = fmt.Sprintf("%d|||", w.Code)
+					}
+					if want := gens[k%ngen].tuple(client); tuple != want && seqFail == "" {
+						seqFail = fmt.Sprintf("after reload #%d returned, client %s got %q, generation says %q\n--- previous\n%s--- current\n%s", k, client, tuple, want, gens[(k-1)%ngen].yaml(), gens[k%ngen].yaml())
+					}
+				}
+			}
 			for y := 0; y < yieldEvery; y++ {
 				goruntime.Gosched()
 			}
 		}
 		atomic.StoreInt32(&stop, 1)
 		wg.Wait()
+		if seqFail != "" {
+			vf.Violation(rt, "new-request-sees-old-generation", "%s", seqFail)
+			return
+		}
 		if len(panics) > 0 {
 			vf.Violation(rt, "panic-during-reload", "panic while serving during reload: %v", panics)
 			return
@@ -163,7 +217,7 @@ func TestVerifC11Mux(t *testing.T) {
 				}
 				ok := false
 				for g := o.lo; g <= o.hi; g++ {
-					if gens[int(g)%ngen].tuple() == o.tuple {
+					if gens[int(g)%ngen].tuple(o.client) == o.tuple {
 						ok = true
 						break
 					}
@@ -171,13 +225,17 @@ func TestVerifC11Mux(t *testing.T) {
 				if !ok {
 					var want []string
 					for g := o.lo; g <= o.hi; g++ {
-						want = append(want, fmt.Sprintf("G%d=%s", g, gens[int(g)%ngen].tuple()))
+						want = append(want, fmt.Sprintf("G%d=%s", g, gens[int(g)%ngen].tuple(o.client)))
 					}
 					key := "mixed-or-stale-generation"
 					if strings.HasPrefix(o.tuple, "404") || strings.HasPrefix(o.tuple, "503") || strings.HasPrefix(o.tuple, "5") {
 						key = "request-failed-because-of-update"
 					}
-					vf.Violation(rt, key, "reader %d observed %q while generations %d..%d were current; consistent tuples: %v", r, o.tuple, o.lo, o.hi, want)
+					var ys []string
+					for g := o.lo; g <= o.hi && len(ys) < 3; g++ {
+						ys = append(ys, fmt.Sprintf("--- G%d\n%s", g, gens[int(g)%ngen].yaml()))
+					}
+					vf.Violation(rt, key, "reader %d (client %s) observed %q while generations %d..%d were current; consistent tuples: %v\n%s", r, o.client, o.tuple, o.lo, o.hi, want, strings.Join(ys, ""))
 					return
 				}
 			}
